@@ -22,6 +22,7 @@ type c18Desc struct {
 	Delta  int    `json:"delta_ms,omitempty"`
 	EType  string `json:"error_type,omitempty"`
 	NExt   int    `json:"extensions"`
+	As     string `json:"report_as,omitempty"` // the property on whose behalf the sanitised-type clause is evaluated (C20 borrows these scenarios)
 }
 
 func (d c18Desc) id() string {
@@ -363,7 +364,7 @@ func runC18(c *Ctx, d c18Desc) {
 					}
 				}
 			}
-			c.Check(ok && good, "hook_error_sanitised_type", "C18/hook-error-type", fmt.Sprintf("restore error %v (type %q), expected the sanitised type %v", err, ue.UserError.Type, want), nil)
+			c.Check(ok && good, "hook_error_sanitised_type", map[bool]string{true: "C18", false: d.As}[d.As == ""]+"/hook-error-type", fmt.Sprintf("restore error %v (type %q), expected the sanitised type %v", err, ue.UserError.Type, want), nil)
 		case <-time.After(6 * time.Second):
 			c.Check(false, "restore_returns", "C18/restore-hang/error", "restore never returned after the runtime reported an error", nil)
 			return
